@@ -91,6 +91,7 @@ FIXED = [
     ("C07", "b7ae855", "a component use with slots did not require its own @end"),
     ("C08", "5bff172", "`{{ x )` was accepted although its `{{` is never closed: `)` counts as an end of embedded code and was skipped without an error where a statement is expected"),
     ("C12", "0a000e4", "field `Élan` was not reachable as `s[\"élan\"]` / `s.élan`: the first-letter fallback upper-cased the first byte (`idx[:1]`), not the first letter"),
+    ("C03", "e601156", "`{{ n = 0 }}@for(; n < 3; n++){{ n }}@end` never ended (the value of the post clause was bound to the init variable only; without one the step was lost) and `@for(i = 0; i < 6; i = i + 2)` failed with \"cannot assign variable 'i' of type 'INTEGER' to type 'NIL'\" (the nil an assignment yields was bound to i)"),
     ("C17", "d3e3b1f", "`a@dump(nope)b` rendered successfully with the error object (message and, for files, the path) inside the page: evalDumpStmt never tested the argument with isError"),
 ]
 
